@@ -37,6 +37,14 @@ class Ctx:
         self.t0 = time.time()
         self.rng = random.Random(seed)
         self.work = os.path.join(VERIF, ".work", "%s-%s-%d" % (prop, tier, os.getpid()))
+        # scratch directories of runs that were killed (their process is gone) are removed here
+        try:
+            for d in os.listdir(os.path.join(VERIF, ".work")):
+                pid = d.rsplit("-", 1)[-1]
+                if pid.isdigit() and not os.path.exists("/proc/" + pid):
+                    shutil.rmtree(os.path.join(VERIF, ".work", d), ignore_errors=True)
+        except OSError:
+            pass
         shutil.rmtree(self.work, ignore_errors=True)
         os.makedirs(self.work)
         if not os.environ.get("VERIF_KEEP"):
